@@ -678,6 +678,7 @@ def run(ctx):
                 batch.append(corr)
     hash_stream(ctx, ExcelCompiler, batch)
     inexact_stream(ctx, ExcelCompiler)
+    inexact_stream(ctx, ExcelCompiler, numpy_constants=True)
     correspondence(ctx, batch)
     shutil.rmtree(ctx.work, ignore_errors=True)
 
@@ -808,24 +809,68 @@ INEXACT_OTHER = ['text', '12', True, False, None, '']
 INEXACT_AGGS = ['SUM', 'SUM', 'AVERAGE', 'COUNT', 'MAX', 'MIN']
 
 
-def typed(v):
-    """a value with the exact class of every scalar in it: ('float', '0.1') — a float subclass (ruamel's ScalarFloat),
-    a numpy scalar or a plain float holding the same number are three different things here"""
+def typed(v, numpy_as_float=False):
+    """a value with the exact class of every scalar in it: ('builtins.float', '0.1') — a float subclass (ruamel's
+    ScalarFloat), a numpy scalar or a plain float holding the same number are three different things here.
+    numpy_as_float: a numpy float counts as the float it holds (streams that WRITE numpy constants: to_file saves
+    them as floats on purpose)."""
     if isinstance(v, (tuple, list)):
-        return [type(v).__name__] + [typed(x) for x in v]
+        return [type(v).__name__] + [typed(x, numpy_as_float) for x in v]
+    if numpy_as_float:
+        import numpy as np
+        if isinstance(v, np.floating):
+            v = float(v)
     return [type(v).__module__ + '.' + type(v).__name__, repr(v)]
 
 
-def inexact_stream(ctx, ExcelCompiler):
+def last_bits(a, b):
+    """two different observations (typed values / ['ok', typed value]) that are the same up to the rounding of the
+    floats in them (relative 1e-13)"""
+    def close(x, y):
+        if x == y:
+            return True
+        if not (isinstance(x, list) and isinstance(y, list) and len(x) == len(y) and x):
+            return False
+        if x[0] == y[0] and x[0] in ('tuple', 'list', 'ok'):
+            return all(close(p, q) for p, q in zip(x[1:], y[1:]))
+        numeric = ('builtins.float', 'builtins.int')
+        if x[0] in numeric and y[0] in numeric:
+            # a float result that is integral is handed out as an int: beyond 2**53 that int is a rounded float too
+            try:
+                if x[0] == 'builtins.int' == y[0] and max(abs(int(x[1])), abs(int(y[1]))) < 2 ** 53:
+                    return False
+                u, v = float(x[1]), float(y[1])
+                return abs(u - v) <= 1e-13 * max(abs(u), abs(v))
+            except Exception:      # noqa: BLE001
+                return False
+        return False
+    return a != b and close(a, b)
+
+
+@known_predicate('C03-numpy-float-constant')
+def _numpy_constant(case):
+    """a constant written as numpy.float64 before the save (to_file stores it as a float, so the loaded model holds
+    a plain float where the original holds the numpy scalar) and an observed float that differs from the
+    original's by rounding only; any other difference in this stream is NOT matched"""
+    return case.get('call') == 'persist-inexact' and bool(case.get('numpy_constants')) and \
+        case.get('diff') == 'float-last-bits'
+
+
+def inexact_stream(ctx, ExcelCompiler, numpy_constants=False):
     """Implementation against implementation (no Coq model: the numbers are outside the float-exact domain): a
     column of constants such as 0.1, 2.5, 1e-7, 1e22, 1/3 (some text / boolean / blank cells among them) under
     SUM / AVERAGE / COUNT / MAX / MIN of ranges and cell arithmetic; the same history of set_value/evaluate on the
     original and on the model loaded from yml, json and pkl; compared after every operation: repr AND exact class
-    of the returned value and of the value of every cell of the cell map."""
+    of the returned value and of the value of every cell of the cell map.
+    numpy_constants: before the save one or two constants are overwritten with numpy.float64 values (what a caller
+    working with numpy passes to set_value; _to_text stores them as floats); numbers are non-negative there, so a
+    difference in rounding stays a difference in the last bits."""
     rng = ctx.rng
-    for k in range(ctx.n(36, 400)):
+    pool = [v for v in INEXACT_POOL if v >= 0] if numpy_constants else INEXACT_POOL
+    tag = 'numpy-constants' if numpy_constants else 'inexact-numbers'
+    for k in range(ctx.n(24 if numpy_constants else 36, 400)):
         nconst = rng.randrange(3, 8)
-        consts = [rng.choice(INEXACT_POOL) if rng.random() < 0.85 else rng.choice(INEXACT_OTHER) for _ in range(nconst)]
+        consts = [rng.choice(pool) if rng.random() < 0.85 else rng.choice(INEXACT_OTHER) for _ in range(nconst)]
         if k % 4 == 0:          # the reported shape: a few floats of very different magnitude and an int under SUM
             consts = rng.sample([2.5, 3, 1e-7, 0.1, 1e22, 1 / 3, 0.7], min(nconst, 7))
         texts = []
@@ -849,6 +894,8 @@ def inexact_stream(ctx, ExcelCompiler):
             nrows += 1
         if k % 4 == 0:
             texts[0] = f'=SUM(A1:A{nconst})'
+        written = [[wbgen.cell_addr(r), rng.choice([v for v in pool if isinstance(v, float)])]
+                   for r in rng.sample(range(1, nconst + 1), rng.randrange(1, 3))] if numpy_constants else []
 
         def build():
             import openpyxl
@@ -867,18 +914,28 @@ def inexact_stream(ctx, ExcelCompiler):
         for _ in range(rng.randrange(6, 11)):
             if rng.random() < 0.45:
                 ops.append(['set', addrs[rng.randrange(nconst)],
-                            rng.choice(INEXACT_POOL) if rng.random() < 0.9 else rng.choice(INEXACT_OTHER)])
+                            rng.choice(pool) if rng.random() < 0.9 else rng.choice(INEXACT_OTHER)])
             else:
                 ops.append(['eval', addrs[rng.randrange(nconst, nrows)]])
         ops.append(['eval', addrs[nconst]])
+        if numpy_constants:      # look at every formula before the history overwrites the numpy constants
+            ops = [['eval', a] for a in addrs[nconst:]] + ops
         for ext in ('yml', 'json', 'pkl'):
             case = dict(call='persist-inexact', workbook=desc, args=[ext, 'plain', 'same'])
-            ctx.count(('inexact', k, ext), kind=f'inexact-numbers:{ext}', sample=case if ext == 'yml' else None)
+            if numpy_constants:
+                case['numpy_constants'] = written      # set_value(addr, numpy.float64(value)) before the save
+            ctx.count((tag, k, ext), kind=f'{tag}:{ext}', sample=case if ext == 'yml' else None)
             stem = os.path.join(ctx.work, f'x{k}')
             try:
                 orig = ExcelCompiler(excel=build())
                 for a in addrs:
                     orig.evaluate(a)
+                if written:
+                    import numpy as np
+                    for a, v in written:
+                        orig.set_value(a, np.float64(v))
+                    for a in addrs:
+                        orig.evaluate(a)
                 orig.to_file(stem, file_types=(ext,))
                 loaded = ExcelCompiler.from_file(stem + '.' + ext)
                 for a in addrs:           # both caches complete: the cell maps are comparable cell by cell
@@ -891,32 +948,47 @@ def inexact_stream(ctx, ExcelCompiler):
                     if f.startswith(f'x{k}.'):
                         os.remove(os.path.join(ctx.work, f))
 
+            def snap(comp):
+                if numpy_constants:
+                    # writing the float a numpy constant holds changes the class of the value on the original only
+                    # (its dependants are reset there, not in the loaded model): compare complete caches
+                    for a in addrs:
+                        try:
+                            comp.evaluate(a)
+                        except Exception:      # noqa: BLE001  (the history leg reports it)
+                            pass
+                return {a: typed(c.value, numpy_constants) for a, c in comp.cell_map.items()}
+
             def observe(comp, op):
                 try:
                     if op[0] == 'eval':
-                        r = ['ok', typed(comp.evaluate(op[1]))]
+                        r = ['ok', typed(comp.evaluate(op[1]), numpy_constants)]
                     else:
                         comp.set_value(op[1], op[2])
                         r = ['ok', None]
                 except Exception as exc:      # noqa: BLE001
                     r = ['raise', type(exc).__name__]
-                return r, {a: typed(c.value) for a, c in comp.cell_map.items()}
+                return r, snap(comp)
             for j in range(-1, len(ops)):
                 if j < 0:       # right after the load
                     rw = rg = None
-                    sw = {a: typed(c.value) for a, c in orig.cell_map.items()}
-                    sg = {a: typed(c.value) for a, c in loaded.cell_map.items()}
+                    sw, sg = snap(orig), snap(loaded)
                 else:
                     (rw, sw), (rg, sg) = observe(orig, ops[j]), observe(loaded, ops[j])
                 hist = ops[:j + 1]
                 if rw != rg:
-                    ctx.violation(dict(case, history=hist),
+                    rounding = numpy_constants and last_bits(rw, rg)
+                    ctx.violation(dict(case, history=hist, diff='float-last-bits' if rounding else 'other'),
                                   "the loaded model answers a history differently from the original (repr / class of the value)",
                                   impl=rg, expected=rw)
-                    break
+                    if not rounding:
+                        break
                 if sw != sg:
                     bad = sorted(set(sw) ^ set(sg)) or [a for a in sw if sw[a] != sg[a]]
-                    ctx.violation(dict(case, history=hist, cell=bad[0]),
-                                  "a cell of the loaded model holds another value (repr / class) than the same cell of the original",
-                                  impl=sg.get(bad[0]), expected=sw.get(bad[0]))
-                    break
+                    other = [a for a in bad if not (numpy_constants and last_bits(sw.get(a), sg.get(a)))]
+                    for a, kind in ([(other[0], 'other')] if other else [(bad[0], 'float-last-bits')]):
+                        ctx.violation(dict(case, history=hist, cell=a, diff=kind),
+                                      "a cell of the loaded model holds another value (repr / class) than the same cell of the original",
+                                      impl=sg.get(a), expected=sw.get(a))
+                    if other:
+                        break
